@@ -102,6 +102,8 @@ def run_histories(jobs):
                 def whoami(self):
                     return 3
             objs = {1: Thing(1), 2: Thing(2), 3: Klass, 4: Slotted(4)}
+            # the two chosen ids are, by turns, ordinary ones and near misses of the daemon's own id (parts of it, it with something behind)
+            IDMAP["x"], IDMAP["y"] = (("objx", "objy"), ("Daemon", "Pyro"), ("Pyro.Daemon.helper", "o"))[jobno % 3]
 
             class Helper(object):
                 @P.expose
